@@ -139,7 +139,11 @@ func (p Precompile) WithdrawDelegatorRewards(
 
 	// NOTE: This ensures that the changes in the bank keeper are correctly mirrored to the EVM stateDB.
 	// This prevents the stateDB from overwriting the changed balance in the bank keeper when committing the EVM state.
-	if isContractDelegator {
+	// The rewards are paid to the delegator's withdraw address, which is not necessarily the delegator:
+	// mirror them on the caller only when the caller actually received them, otherwise the caller is
+	// credited a second time (with freshly minted coins) when the stateDB is committed.
+	withdrawAddr := p.distributionKeeper.GetDelegatorWithdrawAddr(ctx, delegatorHexAddr.Bytes())
+	if isContractDelegator && withdrawAddr.Equals(sdk.AccAddress(contract.CallerAddress.Bytes())) {
 		stateDB.(*statedb.StateDB).AddBalance(contract.CallerAddress, res.Amount[0].Amount.BigInt())
 	}
 
